@@ -143,6 +143,14 @@ CHECKS = {
    note='PARTIAL as named: theorems are over the reals; "finite in float32" additionally assumes that a float32 operation on finite operands whose exact result is far below 2^127 is finite (not proved end-to-end with Flocq for the tensor code).',
    technique='Coq proof (reals: divisor / argument-range lemmas, convexity, induction over histories) + regenerated kernels / pinned clamps + adversarial-family oracle',
    ref='DESIGN.md section 4 C18'),
+ 'C16': dict(
+   text='Theorems (Coq, reals, every world size >= 1, unequal per-rank batches): counts and vector sums are additive over concatenation, so the all-reduced statistics are those of the concatenated batch; with both statistics reduced every rank performs exactly the single-process EMA update on the concatenation, '
+        'hence all ranks agree after every step and after any history (induction); dropping either reduction is refuted by an explicit two-rank witness; synchronised k-means (reduced bins, local sums over global bins, reduced means) equals one single-process iteration on the concatenated data; the LFQ rank mean is the mean. '
+        'Tie: presence, order and operands of every all_reduce in the codebook forwards and k-means, the use_ddp / sync_kmeans wiring, distributed sampling, seed sync and the LFQ distributed mean regenerated and pinned; '
+        'real gloo process groups over loopback (world size 2; thorough: 2-4), unequal batches, independent RNG streams, multi-step histories, 8 scenarios: per-rank state_dict bit-equal across ranks after every step, EMA path equal to a single process on the concatenated batch and to the Coq model step, dropout depth equal, LFQ batch entropy rank-averaged.',
+   note='PARTIAL as named: collectives are modelled as sums / copies; scheduling, failures, NCCL/GPU and the ordering of async broadcasts are only exercised by the gloo runs. One defect repaired (LFQ distributed mean).',
+   technique='Coq proof (reals, additivity + induction over histories, refutation witnesses) + regenerated collective order / pinned wiring + multi-process gloo correspondence with model replay in Coq',
+   ref='DESIGN.md section 4 C16'),
  'C12': dict(
    text='Theorems (Coq, axiom-free, all n, cutoff, multiple_of, draws r): the layers that run are exactly the prefix {0..k-1} with k = min(n, round_up(r+1, m)); cutoff < k <= n; m | k or k = n; '
         'dropped layers form a suffix; every admissible k is produced by some in-contract draw; dropout is off when not training / indices supplied / dropout disabled / one layer. '
